@@ -112,6 +112,22 @@ func c07Core(c *eng.Ctx) {
 			return
 		}
 		format = f
+		// quote-then-rewrite form: ReplaceAll(QuoteMeta(pattern), `\*`, W).
+		// QuoteMeta works character by character, so QuoteMeta(a*b) =
+		// QuoteMeta(a) + `\*` + QuoteMeta(b); every '*' of its output is an
+		// escaped wildcard preceded by its own escape backslash, and the
+		// left-to-right non-overlapping scan of ReplaceAll rewrites exactly
+		// those pairs: the result equals Join(map(QuoteMeta, Split(pattern, "*")), W)
+		if ra, _ := eng.TupleCall(operand); ra != nil && eng.CalleeIs(&ra.Call, "strings", "ReplaceAll") && len(ra.Call.Args) == 3 {
+			old, okO := eng.ConstString(ra.Call.Args[1])
+			w, okW := eng.ConstString(ra.Call.Args[2])
+			if qm, _ := eng.TupleCall(ra.Call.Args[0]); okO && okW && old == "\\*" && qm != nil && eng.CalleeIs(&qm.Call, "regexp", "QuoteMeta") && eng.OriginConv(qm.Call.Args[0]) == patV {
+				wild, sep, chainOK, viaBuilder = w, "*", true, true
+				return
+			}
+			detail = "ReplaceAll form not recognised: " + eng.ValStr(operand)
+			return
+		}
 		jn, _ := eng.TupleCall(operand)
 		if jn == nil || !eng.CalleeIs(&jn.Call, "strings", "Join") {
 			detail = "format operand is not strings.Join(...): " + eng.ValStr(operand)
